@@ -63,17 +63,15 @@ StreamVerdict(e, sid, off, len, fin) ==
   LET end == off + len
       d == DirectionVerdict(e, sid, TRUE, FALSE) IN
   IF d # {} THEN d
-  ELSE IF end > advSD[e][sid] THEN {FLOW_CONTROL_ERROR}
-  ELSE IF ConnReceived(e, sid, end) > advD[e] THEN {FLOW_CONTROL_ERROR}
-  ELSE IF finalSz[e][sid] # None /\ (end > finalSz[e][sid] \/ (fin /\ end # finalSz[e][sid])) THEN {FINAL_SIZE_ERROR}
-  ELSE IF fin /\ end < recvEnd[e][sid] THEN {FINAL_SIZE_ERROR}
-  ELSE {}
+  ELSE (IF end > advSD[e][sid] \/ ConnReceived(e, sid, end) > advD[e] THEN {FLOW_CONTROL_ERROR} ELSE {})
+       \cup (IF (finalSz[e][sid] # None /\ (end > finalSz[e][sid] \/ (fin /\ end # finalSz[e][sid]))) \/ (fin /\ end < recvEnd[e][sid])
+             THEN {FINAL_SIZE_ERROR} ELSE {})
 ResetVerdict(e, sid, final) ==
   LET d == DirectionVerdict(e, sid, TRUE, FALSE) IN
   IF d # {} THEN d
-  ELSE IF final > advSD[e][sid] \/ ConnReceived(e, sid, final) > advD[e] THEN {FLOW_CONTROL_ERROR}
-  ELSE IF final < recvEnd[e][sid] \/ (finalSz[e][sid] # None /\ final # finalSz[e][sid]) THEN {FINAL_SIZE_ERROR}
-  ELSE {}
+  \* a final size can break the flow-control limit and contradict what is known of the stream at once: either code is right
+  ELSE (IF final > advSD[e][sid] \/ ConnReceived(e, sid, final) > advD[e] THEN {FLOW_CONTROL_ERROR} ELSE {})
+       \cup (IF final < recvEnd[e][sid] \/ (finalSz[e][sid] # None /\ final # finalSz[e][sid]) THEN {FINAL_SIZE_ERROR} ELSE {})
 \* MAX_STREAM_DATA / STOP_SENDING address the SENDING side of the stream at e
 SendSideVerdict(e, sid) == DirectionVerdict(e, sid, FALSE, TRUE)
 
